@@ -122,7 +122,7 @@ fn gen_out(r: &mut Rng, ty: &str, by_ty: &HashMap<&str, Vec<usize>>) -> Out {
 fn gen_nonnull(r: &mut Rng, ty: &str, by_ty: &HashMap<&str, Vec<usize>>) -> Out {
     if ty.starts_with('[') {
         let inner = &ty[1..ty.len() - 1];
-        let n = r.below(3);
+        let n = if r.chance(1, 2) { r.below(3) } else { 3 + r.below(2) };
         return Out::List((0..n).map(|_| gen_out(r, inner, by_ty)).collect());
     }
     let pick = |r: &mut Rng, names: &[&str]| -> Out {
@@ -148,7 +148,7 @@ fn gen_nonnull(r: &mut Rng, ty: &str, by_ty: &HashMap<&str, Vec<usize>>) -> Out 
 }
 
 fn gen_world(r: &mut Rng, fault_pm: usize) -> Nodes {
-    let n = 4 + r.below(3);
+    let n = 6 + r.below(4);
     let mut tys = vec![Some(NodeTy::Query), Some(NodeTy::Mutation)];
     for _ in 2..n {
         tys.push(Some([NodeTy::A, NodeTy::B, NodeTy::C][r.below(3)]));
@@ -474,6 +474,15 @@ fn main() {
         // errors caught at nullable positions: only their order changes
         ("{ a { id } k0: a { id } name }", vec![(0, "a", r2.clone()), (2, "id", Out::Err), (0, "name", Out::Str("n".into()))], vec!["a", "k0", "a/id", "k0/id", "name"]),
         ("{ cs { id score } b { id } }", vec![(0, "cs", Out::List(vec![r4.clone(), r4.clone(), Out::Null])), (4, "id", Out::Err), (0, "b", r3.clone())], vec!["cs/0/id", "cs/1/id", "cs/0/score", "b", "b/id"]),
+        // lists of 3-4 distinct object items whose fields suspend: every completion order of the items,
+        // the exact reverse included (non-null items; nullable items with one failing item; mixed with a sibling)
+        ("{ bs { id } }", vec![(0, "bs", Out::List(vec![r3.clone(), Out::Ref(6), Out::Ref(8)]))], vec!["bs/0/id", "bs/1/id", "bs/2/id"]),
+        ("{ bs { id score } }", vec![(0, "bs", Out::List(vec![r3.clone(), Out::Ref(6), Out::Ref(8), Out::Ref(10)]))], vec!["bs/0/id", "bs/1/id", "bs/2/id", "bs/3/id"]),
+        ("{ cs { id } }", vec![(0, "cs", Out::List(vec![r4.clone(), Out::Ref(5), Out::Ref(9)])), (5, "id", Out::Err)], vec!["cs/0/id", "cs/1/id", "cs/2/id"]),
+        ("{ cs { id } name }", vec![(0, "cs", Out::List(vec![r4.clone(), Out::Null, Out::Ref(5), Out::Ref(9)])), (5, "id", Out::Err)], vec!["cs/0/id", "cs/2/id", "cs/3/id", "name"]),
+        ("{ aList { id name } }", vec![(0, "aList", Out::List(vec![r2.clone(), Out::Ref(7), Out::Null, Out::Ref(7)])), (7, "name", Out::Err)], vec!["aList/0/id", "aList/1/id", "aList/3/id", "aList/1/name"]),
+        ("{ nodes { id } abs { ... on A { id } ... on B { score } } }", vec![(0, "nodes", Out::List(vec![r2.clone(), r3.clone(), r4.clone()])), (0, "abs", Out::List(vec![r3.clone(), r2.clone(), Out::Ref(6)]))], vec!["nodes/0/id", "nodes/1/id", "nodes/2/id", "abs/0/score", "abs/2/score"]),
+        ("mutation { bs { id } name }", vec![(1, "bs", Out::List(vec![r3.clone(), Out::Ref(6), Out::Ref(8)]))], vec!["bs/0/id", "bs/1/id", "bs/2/id"]),
         // no fault at all
         ("{ a { id name b { id } } bs { id } __typename }", vec![(0, "a", r2.clone()), (2, "b", r3.clone()), (0, "bs", Out::List(vec![r3.clone(), r3.clone()]))], vec!["a", "bs", "a/id", "a/b", "bs/0/id"]),
         // mutations: root fields one after the other, whatever the order below them
@@ -497,6 +506,12 @@ fn main() {
                 (Some(NodeTy::A), HashMap::new()),
                 (Some(NodeTy::B), HashMap::new()),
                 (Some(NodeTy::C), HashMap::new()),
+                (Some(NodeTy::C), HashMap::new()),
+                (Some(NodeTy::B), HashMap::new()),
+                (Some(NodeTy::A), HashMap::new()),
+                (Some(NodeTy::B), HashMap::new()),
+                (Some(NodeTy::C), HashMap::new()),
+                (Some(NodeTy::B), HashMap::new()),
             ];
             for (n, f, o) in patches {
                 nodes[n].1.insert(f.to_string(), o);
@@ -535,8 +550,32 @@ fn main() {
                 }
             }
         }
+        // the same field of every item of one list: (list path, field) -> candidate paths
+        let mut item_groups: Vec<((String, String), Vec<String>)> = vec![];
+        for c in &cands {
+            let segs: Vec<&str> = c.split('/').collect();
+            if segs.len() >= 3 && segs[segs.len() - 2].parse::<usize>().is_ok() {
+                let key = (segs[..segs.len() - 2].join("/"), segs[segs.len() - 1].to_string());
+                match item_groups.iter_mut().find(|g| g.0 == key) {
+                    Some(g) => g.1.push(c.clone()),
+                    None => item_groups.push((key, vec![c.clone()])),
+                }
+            }
+        }
+        item_groups.retain(|g| g.1.len() >= 3);
         let gates: Vec<String> = match fixed_gates {
             Some(g) => g,
+            None if !item_groups.is_empty() && rng.chance(1, 2) => {
+                let mut g = rng.pick(&item_groups).1.clone();
+                g.truncate(maxg);
+                if g.len() < maxg && rng.chance(1, 2) {
+                    let extra: Vec<&String> = cands.iter().filter(|c| !g.contains(c)).collect();
+                    if !extra.is_empty() {
+                        g.push((*rng.pick(&extra)).clone());
+                    }
+                }
+                g
+            }
             None => {
                 let k = (if rng.chance(1, 5) { 1 + rng.below(2) } else { 3 + rng.below(maxg.saturating_sub(2).max(1)) }).min(cands.len());
                 // prefer a group of siblings (same parent path) with several members, then what lies beneath them
